@@ -357,5 +357,32 @@ theorem parseIP_v4_length {s a : Bytes} (hv : isV4Text s = true) (h : parseIP s 
   | none => simp [hp] at h
   | some f => exact parseV4Fields_length hp
 
+theorem firstSpecial_single {c x : UInt8} (h : firstSpecial [c] = some x) : c = x := by
+  unfold firstSpecial at h
+  split at h
+  · exact Option.some.inj h
+  · simp [firstSpecial] at h
+
+/-- whatever `net.ParseIP` accepts has at least two characters (`::`) -/
+theorem parseIP_length {s a : Bytes} (h : parseIP s = some a) : 2 ≤ s.length := by
+  match s, h with
+  | [], h => simp [parseIP, firstSpecial] at h
+  | [c], h =>
+    exfalso
+    unfold parseIP at h
+    split at h
+    · rename_i hf
+      have := firstSpecial_single hf
+      subst this
+      have e : Option.map (fun x => v4InV6Prefix ++ x) (parseV4Fields [46]) = none := by decide
+      rw [e] at h; cases h
+    · rename_i hf
+      have := firstSpecial_single hf
+      subst this
+      have e : (if ([58] : Bytes).contains 37 = true then none else parseV6 [58]) = none := by decide
+      rw [e] at h; cases h
+    · cases h
+  | _ :: _ :: _, _ => simp
+
 end C08
 end FwdVerif
